@@ -64,7 +64,54 @@ def gen_chain(rng, ty, n):
     return out, ty
 
 
+def gen_parallel_stages(rng):
+    """pipelines whose tasks are independent of one another (no accumulate, no buffer): every completion order of the
+    outstanding tasks is possible, which is what makes gather's ordering work hard"""
+    ty = "int"
+    stages = []
+    for _ in range(rng.choice([1, 1, 2, 3])):
+        r = rng.random()
+        if ty == "int" and r < 0.6:
+            sym = rng.choice([["FInc"], ["FDouble"], ["FAddK", rng.choice(KS)], ["FNeg"]])
+            stages.append({"k": "map", "f": sym, "style": rng.choice(["closure", "kw"]) if sym[0] == "FAddK" else "closure"})
+        elif ty == "int" and r < 0.8:
+            stages.append({"k": "union", "a": [{"k": "map", "f": ["FInc"], "style": "closure"}],
+                           "b": [{"k": "map", "f": ["FDouble"], "style": "closure"}] if rng.random() < 0.7 else []})
+        elif ty == "int":
+            stages.append(rng.choice([{"k": "partition", "n": 2}, {"k": "sliding_window", "n": 2, "partial": True}]))
+            ty = "tup"
+        else:
+            stages.append({"k": "starmap", "f": rng.choice([["NSum"], ["NSumK", rng.choice(KS)]])})
+            ty = "int"
+    return stages
+
+
 def gen_case(rng, tier="quick"):
+    # producer discipline first: it shapes the rest.  await[i] = wait for emit i to complete before emitting input i+1
+    r = rng.random()
+    discipline = "awaited" if r < 0.4 else ("none" if r < 0.65 else "mixed")
+    if discipline != "awaited" and rng.random() < 0.45:
+        stages = gen_parallel_stages(rng)
+        n = rng.choice([3, 4, 5, 6] if tier == "quick" else [4, 5, 6, 7, 8, 9])
+        mode = rng.choice(["random", "random", "random", "fifo", "lifo"])
+        p_emit = rng.choice([0.3, 0.5, 0.5, 0.7])
+    else:
+        stages = gen_stages(rng, tier)
+        n = rng.choice([1, 2, 3, 4, 5, 6] if tier == "quick" else [2, 3, 4, 5, 6, 7, 8, 9])
+        mode = rng.choice(["random", "random", "random", "lifo", "lifo", "fifo"])
+        p_emit = rng.choice([0.2, 0.5, 0.5, 0.9, 1.0])
+    inputs = [[rng.choice([-3, 0, 1, 2, 3, 4, 7, 9]), rng.random() < 0.6] for _ in range(n)]
+    sched = {"seed": rng.randrange(1 << 30), "mode": mode, "p_emit": p_emit}
+    if discipline == "awaited":
+        sched["await"] = [True] * n
+    elif discipline == "none":
+        sched["await"] = [False] * n
+    else:
+        sched["await"] = [rng.random() < 0.35 for _ in range(n)]
+    return {"stages": stages, "inputs": inputs, "sched": sched}
+
+
+def gen_stages(rng, tier="quick"):
     nst = rng.choice([1, 2, 2, 3, 3, 4] if tier == "quick" else [1, 2, 3, 3, 4, 5, 6])
     ty = "int"
     stages = []
@@ -88,11 +135,7 @@ def gen_case(rng, tier="quick"):
     for _ in range(nbuf):
         pos = rng.choice([len(stages), len(stages), rng.randrange(len(stages) + 1)])
         stages.insert(pos, {"k": "buffer", "n": rng.choice([1, 2, 5])})
-    n = rng.choice([1, 2, 3, 4, 5, 6] if tier == "quick" else [2, 3, 4, 5, 6, 7, 8, 9])
-    inputs = [[rng.choice([-3, 0, 1, 2, 3, 4, 7, 9]), rng.random() < 0.6] for _ in range(n)]
-    sched = {"seed": rng.randrange(1 << 30), "mode": rng.choice(["random", "random", "lifo", "lifo", "fifo"]),
-             "p_emit": rng.choice([0.2, 0.5, 0.9, 1.0])}
-    return {"stages": stages, "inputs": inputs, "sched": sched}
+    return stages
 
 
 def leaves_of(case):
@@ -142,21 +185,37 @@ def judge(case, loc, dk):
                     % (dk["emit_state"], dk["unfinished"])))
         return out
     ls, ds = loc["sunk"], dk["sunk"]
-    if ls != ds:
+    aw = case.get("sched", {}).get("await")
+    all_awaited = aw is None or all(aw)
+    kinds = "+".join(sorted(kinds_of(case)))
+    if all_awaited and last_segment_has_union(case):
+        where = "bare-gather/fan-in-of-one-input"
+    elif not all_awaited:
+        where = "unawaited-producer/" + kinds
+    else:
+        where = kinds
+    # prefix-consistent throughout: after every step the deliveries so far are a prefix of the local sequence
+    cum, bad_step = [], None
+    for k, st in enumerate(dk["steps"]):
+        if st[1] is None:
+            continue
+        cum = cum + st[1]
+        if cum != ls[:len(cum)]:
+            bad_step = k
+            break
+    if ls != ds or bad_step is not None:
         key = lambda v: json.dumps(v, sort_keys=True)
         if sorted(map(key, ls)) == sorted(map(key, ds)):
-            where = "bare-gather/fan-in-of-one-input" if last_segment_has_union(case) else \
-                "+".join(sorted(kinds_of(case)))
             out.append(("C20/order/" + where,
-                        "same elements, different order: local %s dask %s" % (ls, ds)))
+                        "same elements, different order (first wrong after schedule step %s %s): local %s dask %s"
+                        % (bad_step, dk["steps"][bad_step][0] if bad_step is not None else "", ls, ds)))
         else:
-            out.append(("C20/values/" + "+".join(sorted(kinds_of(case))),
-                        "sink sequences differ: local %s dask %s" % (ls, ds)))
+            out.append(("C20/values/" + kinds, "sink sequences differ: local %s dask %s" % (ls, ds)))
         return out
-    if dk.get("overtaken") and last_segment_has_union(case):
+    if dk.get("overtaken"):
         # equal values hide it from the sequence comparison, but a later arrival was emitted before an earlier one
-        out.append(("C20/order/bare-gather/fan-in-of-one-input",
-                    "gather emitted a later arrival before an earlier one (the two values are equal): %s" % (ds,)))
+        out.append(("C20/order/" + where,
+                    "gather emitted a later arrival before an earlier one (their values are equal): %s" % (ds,)))
         return out
     if loc["counts"] != dk["counts"]:
         out.append(("C20/refs/final-count/" + "+".join(sorted(kinds_of(case))),
@@ -182,6 +241,8 @@ def cls_of(sig):
     parts = sig.split("/")
     if parts[1] == "order" and "bare-gather" in sig:
         return sig
+    if parts[1] == "order" and parts[2] == "unawaited-producer":
+        return "/".join(parts[:3])
     return "/".join(parts[:3] if parts[1] == "refs" else parts[:2])
 
 
@@ -217,6 +278,17 @@ def shrink(case, cls, runner, budget=150):
         for i in range(len(cur["inputs"])):
             c = json.loads(json.dumps(cur))
             del c["inputs"][i]
+            if c["sched"].get("await") is not None and i < len(c["sched"]["await"]):
+                del c["sched"]["await"][i]
+            cands.append(c)
+        aw = cur["sched"].get("await")
+        if aw is not None and not all(aw):
+            c = json.loads(json.dumps(cur))
+            c["sched"]["await"] = [True] * len(aw)
+            cands.append(c)
+        elif aw is not None and any(aw) and not all(aw):
+            c = json.loads(json.dumps(cur))
+            c["sched"]["await"] = [False] * len(aw)
             cands.append(c)
         for i in range(len(cur["inputs"])):
             if cur["inputs"][i][1]:
@@ -226,11 +298,14 @@ def shrink(case, cls, runner, budget=150):
         for mode in ("fifo", "lifo"):
             if cur["sched"].get("mode") != mode or cur["sched"].get("p_emit") != 1.0:
                 c = json.loads(json.dumps(cur))
-                c["sched"] = {"seed": 0, "mode": mode, "p_emit": 1.0}
+                c["sched"] = {"seed": 0, "mode": mode, "p_emit": 1.0, "await": cur["sched"].get("await")}
                 cands.append(c)
         for c in cands:
             if not c["stages"] or not c["inputs"]:
                 continue
+            if c["sched"].get("actions") is not None and \
+                    (c["stages"] != cur["stages"] or c["inputs"] != cur["inputs"]):
+                del c["sched"]["actions"]          # a scripted schedule only fits the case it was written for
             if used[0] >= budget:
                 break
             if fails(c):
